@@ -39,6 +39,7 @@ r21=rows(21); n21,m21=len(r21),sum('missed at first' in x for x in r21)
 r22=rows(22); n22,m22=len(r22),sum('missed at first' in x for x in r22)
 r23=rows(23); n23,m23=len(r23),sum('missed at first' in x for x in r23)
 r24=rows(24); n24,m24=len(r24),sum('missed at first' in x for x in r24)
+r25=rows(25); n25,m25=len(r25),sum('missed at first' in x for x in r25)
 def nm(r): return len(r),sum('missed at first' in x for x in r)
 (n1,m1),(n2,m2),(n3,m3),(n4,m4),(n5,m5),(n6,m6),(n7,m7),(n8,m8),(n9,m9)=[nm(r) for r in (r1,r2,r3,r4,r5,r6,r7,r8,r9)]
 own=open('/verif/mutants/RESULTS.txt').read().strip().split('\n')
@@ -308,6 +309,13 @@ detected as the checks stood, %d missed at first.
 | seed | property | detected by (scenario / clause) |
 |---|---|---|
 '''%(n24,n24-m24,m24)+'\n'.join(r24)+'''
+
+**Round 25** (%d changes; a few more under the same brief, asked to be made of two cooperating
+sites that each look harmless alone): %d detected as the checks stood, %d missed at first.
+
+| seed | property | detected by (scenario / clause) |
+|---|---|---|
+'''%(n25,n25-m25,m25)+'\n'.join(r25)+'''
 
 What changed in response, as a rule rather than case by case: every property whose code handles a
 length, a count or an index now has a *scale* scenario next to its small-scope product, in which
